@@ -1,6 +1,6 @@
 # table consumed by tools_manifest.py
 ENGINES = [
-    {"name": "vv", "path": "vv/", "serves_properties": ["C02", "C03", "C04", "C05", "C06", "C07", "C09", "C11", "C12", "C13", "C14", "C15", "C16", "C17", "C18", "C19"], "kind_free_text": "runtime monitors: generators, independent flatbuffer reader/writer, compile drivers, sharded worker harness, evidence/findings"},
+    {"name": "vv", "path": "vv/", "serves_properties": ["C02", "C03", "C04", "C05", "C06", "C07", "C09", "C10", "C11", "C12", "C13", "C14", "C15", "C16", "C17", "C18", "C19"], "kind_free_text": "runtime monitors: generators, independent flatbuffer reader/writer, compile drivers, sharded worker harness, evidence/findings"},
 ]
 NOTES = ("Technique family: runtime monitoring and sanitizers. Every check runs the real code from /repo's working tree (codec rebuilt from the C "
          "sources on every run) under generated workloads with oracles observing executions; verdicts are violated / held-on-what-was-observed / "
@@ -145,3 +145,14 @@ check("C16", "exploration",
       "with the compiler's verdict for that sentence.",
       "Sentences without an independent predicate are judged through the compiler's own verdict only (listed in the evidence); operators are matched to hook records by name.",
       "runtime hooks on constraint functions + report parser + placement oracle", "DESIGN.md 4/C16")
+
+check("C10", "exploration",
+      "Stripe geometry monitor: (A) Box.transform_with_strides_and_skirt is driven over an exhaustive small grid (OFM height 1..12 x every stripe height x kernel 1..8 x stride 1..3 x "
+      "dilation 1..2 x SAME/VALID/explicit pads x write and read offsets, the skirt obtained from the real calc_padding_and_skirt) against an independent receptive-field function: "
+      "start row, top/bottom padding and contained rows; (B) for every NpuStripe of real compilations (hook on generate_command_stream pairs each emitted op with its stripe) the "
+      "OFM boxes of a pass must partition its write region, the decoded pad registers, implied IFM extent, OFM size and the stripe's IFM start row must be the receptive field "
+      "of its OFM box under the operator's kernel/stride/dilation/padding/offsets, weight boxes must equal the OFM channel range, and rows of rolling buffers must still "
+      "hold the expected row when a consumer stripe reads them (row-granular writer tags over decoded addresses).",
+      "The IFM box may extend beyond the last consumed row; SAME/VALID operator padding is recomputed by the TFLite rule, explicit padding is taken from the fused PAD; upscaled, "
+      "transpose-convolution and tile-aliased stripes are not judged by the receptive-field clause.",
+      "runtime monitor on hooked stripes + exhaustive direct drive against a reference model", "DESIGN.md 4/C10")
